@@ -56,6 +56,66 @@ CHECKS = {
                            "iter_nontrivial_topk", "iter_nontrivial_bottomk"]),
     "C15": hist("TestC15", 3000, 40, 12000, 60,
                 essential=["bracketed_deep", "delete_absent", "overwrite"]),
+    "C07": {
+        "kind": "go",
+        "quick": [{"test": "TestC07", "checks": 5000, "timeout": 600},
+                  {"test": "TestC07", "variant": "386", "checks": 1500, "timeout": 600}],
+        "thorough": [{"test": "TestC07", "checks": 20000, "shards": 16, "timeout": 3000},
+                     {"test": "TestC07", "variant": "386", "checks": 5000, "shards": 8, "timeout": 3000}],
+        "essential": ["exhaustive_u8", "exhaustive_i8", "exhaustive_u16", "exhaustive_i16", "sweep_f64", "sweep_i64", "sweep_u64", "sweep_int", "sweep_uint",
+                      "nan_patterns_f32", "nan_patterns_f64", "tuple"],
+        "assumptions": ["oracle order = native Go comparison of the values (integers <; floats: IsNaN/Signbit/<), never a go-art function",
+                        "the rank enumeration used to produce neighbouring values is itself validated against that oracle on every adjacent pair",
+                        "64-bit types are sampled (boundary sweeps + generated pairs), not enumerated; 8/16-bit types are enumerated completely in the quick tier, 32-bit types in the thorough tier",
+                        "GOARCH=386 run covers the 32-bit branches of the uint/int codecs"],
+    },
+    "C10": {
+        "kind": "go",
+        "quick": [{"test": "TestC10", "checks": 2000, "timeout": 600},
+                  {"test": "TestC10", "variant": "386", "checks": 600, "timeout": 600}],
+        "thorough": [{"test": "TestC10", "checks": 20000, "shards": 12, "timeout": 3000},
+                     {"test": "TestC10", "variant": "386", "checks": 8000, "shards": 4, "timeout": 3000}],
+        "essential": ["closure_transitions", "prim4_boundary_words", "prim16_stale_lane_equals_occupied", "prim16_fill_0", "prim16_fill_16",
+                      "seq_end_node4", "seq_end_node16", "seq_end_node48", "seq_end_node256", "seq_branch_byte_00"],
+        "assumptions": ["amd64 assembly (node16_amd64.s) and, through the GOARCH=386 run, the portable fallback node16_other.go are executed; node16_arm64.s cannot be executed in this sandbox and is NOT covered",
+                        "nodes are driven through the build-tag-guarded bare node handle (addChild/deleteChild/findChild and the library's own all/backward/minimum/maximum on the node)",
+                        "preconditions of the node API respected: add only an unregistered byte, remove only a registered byte"],
+    },
+    "C16": {
+        "kind": "go", "replay_variant": "race", "maxpar": 4,
+        "quick": [{"test": "TestC16", "variant": "race", "checks": 300, "timeout": 900, "env": {"GORACE": "halt_on_error=1"},
+                   "wa_env": "VERIF_C16_WRITEAHEAD", "race_is_violation": True}],
+        "thorough": [{"test": "TestC16", "variant": "race", "checks": 3000, "shards": 4, "timeout": 3000, "env": {"GORACE": "halt_on_error=1"},
+                      "wa_env": "VERIF_C16_WRITEAHEAD", "race_is_violation": True}],
+        "essential": ["part_A", "part_B", "overlapped", "pool_traffic_on_2_goroutines", "gomaxprocs_1", "gomaxprocs_16"],
+        "assumptions": ["schedules are sampled (GOMAXPROCS, Gosched injection, repetition), not enumerated; the verdict relies on the race detector's happens-before analysis, which only sees accesses that execute in the sampled run",
+                        "the race detector has no false positives; any report is a violation",
+                        "part B uses byte-string, numeric and compound trees only (collation trees write their codec scratch on every query and are outside the property)"],
+    },
+    "C17": {
+        "kind": "go",
+        "quick": [{"test": "TestC17", "checks": 14, "timeout": 600, "shrinktime": "5s"}],
+        "thorough": [{"test": "TestC17", "checks": 15, "shards": 4, "timeout": 3000, "shrinktime": "10s"}],
+        "essential": ["collation_x_q", "alpha_x_c", "unsigned_x_c", "signed_x_c", "float_x_c", "compound_x_c", "collation_x_c"],
+        "assumptions": ["a measurement, not a proof of boundedness: live heap = runtime.MemStats.HeapAlloc after two forced collections",
+                        "thresholds: total growth > 1 MiB over 8N operations with growth > 256 KiB in at least two of the intervals [0,N],[N,2N],[2N,4N],[4N,8N]; emptied tree retains <= 256 KiB",
+                        "a measurement over the threshold is re-taken up to three times before it counts"],
+    },
+    "C18": hist("TestC18", 1200, 40, 10000, 60,
+                essential=["valtype_int", "valtype_string", "valtype_ptr", "valtype_bytes", "valtype_big", "valtype_empty", "valtype_any", "gc_with_8", "range"]),
+}
+for _r in CHECKS["C18"]["quick"] + CHECKS["C18"]["thorough"]:
+    _r["variant"] = "checkptr"
+CHECKS["C18"]["thorough"].append({"test": "TestC18", "variant": "race", "checks": 1500, "steps": 40, "shards": 2, "timeout": 3000})
+CHECKS["C18"]["replay_variant"] = "checkptr"
+CHECKS["C18"]["assumptions"] = ALL_KINDS_ASSUMPTIONS + [
+    "collector timing is forced (GC percent 1, runtime.GC() at drawn points, allocation churn), not enumerated",
+    "binary built with -gcflags=all=-d=checkptr; a checkptr fault or runtime throw is a hard crash that the driver turns into a violation with a written-ahead trace",
+    "the model holds value ids only (never the value objects), so the harness does not keep stored values alive"]
+CHECKS["C19"] = {
+    "kind": "script", "module": "c19", "level": "translation_validation",
+    "assumptions": ["the generator is cmd/go-art/main.go + tree.tmpl of the current working tree followed by gofmt, as gen.go's go:generate lines say",
+                    "differential check over a finite domain: no random generation is involved; the five instantiations are enumerated completely"],
 }
 
 # rule texts are kept next to the generators (harness/props.go); the driver copies them from the run statistics
